@@ -37,7 +37,7 @@ def run(res, args):
             x = g.doc()
         if x:
             xs.append(x)
-    opts = [(rng.choice([1, 2, 3, 3]), rng.choice([0, 1]), rng.choice([0, 1])) for _ in xs]   # version, keepws, strtbl
+    opts = [(rng.choice([0, 1, 2, 3, 3]), rng.choice([0, 1]), rng.choice([0, 1])) for _ in xs]   # version, keepws, strtbl
     env = b.env()
 
     def x2w(items):   # [(opt, xml)] -> responses
